@@ -1,7 +1,9 @@
 --------------------------- MODULE MC_Kinematics ---------------------------
 EXTENDS Kinematics
-(* sin(theta) grid: theta in (0, pi/2], i.e. two_theta in (0, pi] *)
-MC_SinQuick == {<<1, 2>>, <<3, 5>>, <<1, 1>>}
-MC_SinFull  == {<<1, 2>>, <<3, 5>>, <<4, 5>>, <<5, 13>>, <<12, 13>>, <<1, 1>>}
+(* sin(theta) grid: theta in (0, pi/2], i.e. two_theta in (0, pi]; from back-scattering (s = 1)   *)
+(* down to small angles (two_theta = 2e-3 and 2e-6 rad), where formulas that are fine at large    *)
+(* angles (half-angle identities, thresholds on the angle or its sine) lose their digits          *)
+MC_SinQuick == {<<1, 1000000>>, <<1, 1000>>, <<1, 2>>, <<3, 5>>, <<1, 1>>}
+MC_SinFull  == {<<1, 1000000>>, <<1, 1000>>, <<1, 2>>, <<3, 5>>, <<4, 5>>, <<5, 13>>, <<12, 13>>, <<1, 1>>}
 ASSUME PrintT(<<"DIM", PhysDim, SinExp>>)
 =============================================================================
